@@ -12,7 +12,7 @@ import shapleylib
 RULE = ("cases = IncompleteCooperativeGame objects on n = 2..8 players whose lower/upper columns are written directly "
         "(set_lower_bound / set_upper_bound per coalition; grand coalition revealed with lower = upper), value classes "
         "int / dyadic (k/64) / float, box shapes: random boxes, all-degenerate, half-degenerate, ONE coalition size widened "
-        "(every size 0..n-1 for every n), ONE single coalition widened (isolates the weight 1/C(n,|S|)), only the coalitions "
+        "(every size 1..n-1 for every n), ONE single coalition widened (isolates the weight 1/C(n,|S|)), only the coalitions "
         "containing / not containing one player widened (a lower/upper swap for one family is visible), inverted boxes "
         "(lower > upper somewhere: the identity does not need lower <= upper). Every object respects the class invariant "
         "(known row => lower = upper; empty coalition known with value 0). compute_exploitability and l1/l2/linf norms are "
